@@ -241,7 +241,7 @@ func runC12(c *Ctx) {
 			default:
 				blind = bytes.Repeat([]byte{0xff}, sz+3)
 			}
-			ctx := r.Bytes([]int{0, 1, 13, 40}[i%4])
+			ctx := r.Bytes([]int{0, 1, 13, 40, 62, 64, 80, 96, 100, 127, 128, 129, 200, 1000}[(i+3*len(cn))%14])
 			bk, _ := ecdsa.CreateKey(cv, blind)
 			out := c.Run("c12.blind", cn, bigHex(sk.X), bigHex(sk.Y), hx(blind), hx(ctx))
 			c.Count(fmt.Sprintf("%s:blind/%d", cn, i%5))
@@ -259,7 +259,11 @@ func runC12(c *Ctx) {
 			// the same blind key straight afterwards with a context of the same length that differs in one byte
 			if len(ctx) > 0 {
 				ctx2 := append([]byte{}, ctx...)
-				ctx2[r.IntN(len(ctx2))] ^= 1 << r.IntN(8)
+				if i%2 == 0 {
+					ctx2[len(ctx2)-1] ^= 1 << r.IntN(8) // the last byte: past any fixed-size buffer a long context may be cut to
+				} else {
+					ctx2[r.IntN(len(ctx2))] ^= 1 << r.IntN(8)
+				}
 				o2 := c.Run("c12.blind", cn, bigHex(sk.X), bigHex(sk.Y), hx(blind), hx(ctx2))
 				if ref := refBlind(cn, sk.X, sk.Y, new(big.Int).SetBytes(blind), ctx2); ref != nil {
 					c.Direct(o2 == "ok "+bigHex(ref[0])+" "+bigHex(ref[1]) && o2 != out, "blinded key for a second context (same blind key, same length) is not that of the second context",
@@ -738,7 +742,7 @@ func runC15(c *Ctx) {
 	n := c.Pick(40, 1500)
 	for i := 0; i < n; i++ {
 		seed, blind, msg := r.Bytes(32), r.Bytes(32), r.Bytes([]int{0, 1, 32, 200}[i%4])
-		ctx := r.Bytes([]int{0, 1, 16, 100}[i%4])
+		ctx := r.Bytes([]int{0, 1, 16, 100, 31, 32, 33, 64, 65, 95, 96, 128, 300}[i%13])
 		sk := ed25519.NewKeyFromSeed(seed)
 		pk := []byte(sk[32:])
 		in := map[string]any{"seed": hx(seed), "blind": hx(blind), "ctx": hx(ctx), "msg": hx(msg)}
